@@ -31,12 +31,36 @@ theorem secret_name_input_exact (o : Option (List Char)) :
   | none => simp [validSecretNameInput]
   | some s => simp [validSecretNameInput, secret_name_exact]
 
-/-- The user-creation path of `auth.py` reaches its INSERT exactly for a valid username together with no secret name
-or a valid one. -/
+/-- The user-creation path of `auth.py`, for every kind of account (human / developer / service account, login id
+`None` / empty / given): the INSERT is reached exactly when the flags are consistent (not developer and service
+account at once; a login id unless it is a service account), the username is valid and the secret name is absent or
+valid. -/
+theorem user_creation_exact_for (u : List Char) (l : LoginId) (dev sa : Bool) (o : Option (List Char)) :
+    insertReachedFor u l dev sa o = true ↔
+      (¬ (dev = true ∧ sa = true) ∧ (sa = true ∨ l.truthy = true)) ∧ Username u ∧ ∀ s, o = some s → Rfc1123Name s := by
+  simp only [insertReachedFor, Bool.and_eq_true, Bool.or_eq_true, Bool.not_eq_true', Bool.and_eq_false_imp, username_exact,
+    secret_name_input_exact]
+  constructor
+  · rintro ⟨⟨⟨h1, h2⟩, h3⟩, h4⟩
+    exact ⟨⟨fun ⟨a, b⟩ => by simp [h2 a] at b, h3⟩, h4, h1⟩
+  · rintro ⟨⟨h2, h3⟩, h4, h1⟩
+    refine ⟨⟨⟨h1, fun a => ?_⟩, h3⟩, h4⟩
+    cases hsa : sa with
+    | false => rfl
+    | true => exact absurd ⟨a, hsa⟩ h2
+
+/-- **Whatever reaches the INSERT satisfies the name languages — for every flag combination.**  (A service account, a
+developer, a request without login id: none of them lets an invalid username or secret name through.) -/
+theorem user_creation_safe (u : List Char) (l : LoginId) (dev sa : Bool) (o : Option (List Char))
+    (h : insertReachedFor u l dev sa o = true) : Username u ∧ ∀ s, o = some s → Rfc1123Name s :=
+  ((user_creation_exact_for u l dev sa o).1 h).2
+
+/-- The ordinary sign-up (human account with a login id) reaches its INSERT exactly for a valid username together with
+no secret name or a valid one. -/
 theorem user_creation_exact (u : List Char) (o : Option (List Char)) :
     insertReached u o = true ↔ Username u ∧ ∀ s, o = some s → Rfc1123Name s := by
-  simp only [insertReached, Bool.and_eq_true, username_exact, secret_name_input_exact]
-  exact And.comm
+  rw [insertReached, user_creation_exact_for]
+  simp [LoginId.truthy]
 
 /-- The matcher used for the secret-name pattern decides the standard denotation of regular expressions, for every
 expression and every string (so the model of the pattern is the pattern itself, not a hand-derived automaton). -/
@@ -137,6 +161,11 @@ example : validSecretNameInput none = true := by decide
 example : insertReached "ab".toList (some "abc\n".toList) = false := by decide
 example : insertReached "ab\n".toList none = false := by decide
 example : insertReached "ab".toList none = true := by decide
+example : insertReachedFor "CI_Bot".toList .none false true none = false := by decide      -- service account, invalid name
+example : insertReachedFor "ci-bot".toList .none false true none = true := by decide       -- service account, no login id
+example : insertReachedFor "ab".toList .empty false false none = false := by decide        -- EmptyLoginID
+example : insertReachedFor "ab".toList .value true true none = false := by decide          -- MultipleUserTypes
+example : insertReachedFor "ab".toList .value true false (some "k".toList) = true := by decide
 example : Username "ab-c".toList := (username_exact _).1 (by decide)
 example : Rfc1123Name "a.b-c".toList := (secret_name_exact _).1 (by decide)
 
